@@ -429,9 +429,30 @@ def seam_b_valid(res, t, provider):
                         fired = ("exc", type(e).__name__)
                     got_reads = [n for (_w, n) in reads]
                     # oracle
+                    if provider == "machine+listener" and t[0] == "atom":
+                        # a plain name: every provider is its own guard entry (C12): cond needs
+                        # all truthy, unless needs all falsy; evaluation stops at the first
+                        # provider that disables the transition
+                        m_, l_ = pv[t[1]]
+                        want = polarity == "cond"
+                        exp_reads = [t[1]]
+                        ok = bool(m_) == want
+                        if ok:
+                            exp_reads.append(t[1])
+                            ok = bool(l_) == want
+                        exp = ("ok", ok)
+                        res.stats["evaluations"] += 1
+                        if exp != fired or exp_reads != got_reads:
+                            res.violation({"category": "plain-name-two-providers", "seam": "b"},
+                                          {"seam": "b", "tree": t, "expr": expr, "vals": repr(pv),
+                                           "provider": provider, "polarity": polarity},
+                                          f"[{provider}] {polarity}={expr!r} with {pv}: expected "
+                                          f"fires={exp} reading {exp_reads}, observed "
+                                          f"fires={fired} reading {got_reads}")
+                        else:
+                            res.hist[f"e2e-{polarity}:{exp[1]}"] += 1
+                        continue
                     if provider == "machine+listener":
-                        class Conj(dict):
-                            pass
                         seq = []
 
                         def conj_vals(pv=pv, seq=seq):
@@ -678,7 +699,7 @@ def run(tier, seed):
     nneg = len(bool_shapes(1)) + 2
     blocks += [("neg", tier, i, min(i + 2, nneg)) for i in range(0, nneg, 2)]
     total, capped = run_blocks(worker, blocks, seed=seed)
-    rep.add_violations(total.violations)
+    rep.add_violations(total.violations, total.hist_sig)
     rep.harness_errors = total.stats.get("harness_errors", 0)
     rep.notes.extend(total.notes)
     rep.coverage = {
